@@ -39,6 +39,9 @@ fn registry() -> Vec<PartDesc> {
     v.push(desc::<props::factory::C14>("exploration"));
     v.push(desc::<props::factory::C15>("exploration"));
     v.push(desc::<props::factory::C15Bucket>("exploration"));
+    v.push(desc::<props::c16::C16>("exploration"));
+    #[cfg(not(feature = "v2"))]
+    v.push(foreign("C16", "e1-v2", "v2", "exploration"));
     #[cfg(feature = "async-trait")]
     v.push(desc::<props::c01::C01At>("exploration"));
     #[cfg(not(feature = "async-trait"))]
